@@ -49,9 +49,9 @@ AS = RT + "async_support/"
 #                       be replayed natively (cargo kani playback)
 # --------------------------------------------------------------------------
 
-def H(name, scenario, est=120, leak=False, stubs=True, covers=None):
+def H(name, scenario, est=120, leak=False, stubs=True, covers=None, needs=None):
     return {"name": name, "module": name.split("_", 1)[0], "scenario": scenario, "est": est,
-            "leak": leak, "stubs": stubs, "covers": covers}
+            "leak": leak, "stubs": stubs, "covers": covers, "needs": needs}
 
 
 _C21_SCRIPTS = {
@@ -81,8 +81,27 @@ def _c21(tier):
     return hs
 
 
+def _c24(tier):
+    return [
+        H("c24_realloc_model", "cabi_realloc: two consecutive requests (alloc n1 <= 16 at align 2^k, k <= 16; then realloc/alloc to n2 <= 16) "
+          "against Kani's heap model: non-null, zero size returns `align`, contents preserved up to min(n1, n2), block writable for its "
+          "size, freed by the caller with (n2, align); leak check on", 140, leak=True, stubs=False),
+        H("c24_realloc_ledger", "cabi_realloc: same two requests with sizes up to 2^20; alloc/realloc replaced by recording shims: the Layout "
+          "passed to the global allocator has exactly the requested size and alignment, zero-sized requests never reach the allocator", 70),
+        H("c24_cleanup_ledger", "Cleanup::new/drop/forget, size <= 16, align 2^k: pointer null <=> size 0 <=> no guard; alloc once with the "
+          "layout; drop frees once with the same pointer and layout; forget frees nothing", 70),
+        H("c24_cleanup_model", "Cleanup::new/drop/forget against Kani's heap model: block writable for `size` bytes, dropped guard leaves no "
+          "leak, forgotten guard leaves the block allocated (the harness frees it: a double free would be flagged)", 40, leak=True, stubs=False),
+        H("c24_cabi_dealloc_ledger", "generated cabi_dealloc(ptr, size, align) on a block from cabi_realloc, size up to 2^20: dealloc called "
+          "once with (ptr, size, align) iff size > 0", 50, needs="cabi_dealloc"),
+        H("c24_cabi_dealloc_model", "generated cabi_dealloc against Kani's heap model, size <= 16: no leak, no free of the dangling zero-size pointer",
+          50, leak=True, stubs=False, needs="cabi_dealloc"),
+    ]
+
+
 HARNESSES = {
     "C21": _c21,
+    "C24": _c24,
 }
 
 ENCODED = {
@@ -97,6 +116,9 @@ ENCODED = {
             (AS + "waitable.rs", "fn poll_complete_with_code("), (AS + "waitable.rs", "pub fn cancel(mut self: Pin<&mut Self>)"),
             (AS + "waitable.rs", "impl<S: WaitableOp> Drop for WaitableOperation<S>"),
             (RT + "mod.rs", "pub fn new(layout: Layout) -> (*mut u8, Option<Cleanup>)"), (RT + "mod.rs", "impl Drop for Cleanup")],
+    "C24": [(RT + "mod.rs", "pub unsafe fn cabi_realloc("), (RT + "mod.rs", "pub fn new(layout: Layout) -> (*mut u8, Option<Cleanup>)"),
+            (RT + "mod.rs", "pub fn forget(self)"), (RT + "mod.rs", "impl Drop for Cleanup"),
+            ("crates/rust/src/lib.rs", "RuntimeItem::CabiDealloc =>")],
 }
 
 BOUNDS = {
@@ -110,6 +132,12 @@ BOUNDS = {
                      "subtask_handle": "symbolic in [1, 2^28)"},
     },
 }
+
+BOUNDS["C24"] = {
+    "quick": {"requests": 2, "alignment": "2^k, k in 0..=16 (symbolic)", "sizes_bytewise": "0..=16 (contents compared bytewise, unwind 18)",
+              "sizes_ledger": "0..=2^20 (Layout arguments only)", "cleanup_size": "0..=16"},
+}
+BOUNDS["C24"]["thorough"] = BOUNDS["C24"]["quick"]
 
 OUTSIDE = {
     "C21": ["the code *generated* for params_lower / params_dealloc_lists / results_lift (the Subtask trait is implemented by the harness; "
@@ -130,6 +158,16 @@ ASSUMPTIONS_COMMON = [
     "(pointer validity, overflow, unwinding assertions ON)",
 ]
 
+OUTSIDE["C24"] = [
+    "alignment of the returned ADDRESS: not observable in CBMC's object/offset pointer model; the check shows instead that the Layout handed to the "
+    "global allocator carries the requested alignment, and relies on GlobalAlloc's contract for the address",
+    "allocation failure (allocator returns null -> handle_alloc_error / unreachable): Kani runs with --no-malloc-may-fail",
+    "request histories longer than 2 (cabi_realloc keeps no state of its own; each request only depends on the block it is given)",
+    "bytewise content comparison for sizes above 16 (the code path does not depend on the size beyond zero / non-zero)",
+    "the wasm export shim cabi_realloc_wit_bindgen_<version> (a one-line forwarder, only compiled for wasm) and the prebuilt libwit_bindgen_cabi_realloc.a",
+    "requests (old_len > 0, new_len == 0): excluded by the canonical ABI and rejected by a debug_assert in cabi_realloc",
+]
+
 ASSUMPTIONS = {
     "C21": [
         "stub: subtask::cancel ([subtask-cancel]) and subtask::drop ([subtask-drop]) are the mock host (c21.rs) carrying the trap conditions as assertions",
@@ -141,6 +179,15 @@ ASSUMPTIONS = {
         "CBMC --memory-leak-check: a block still allocated when the harness ends is a failure (parameter/result area freed)",
     ],
 }
+
+ASSUMPTIONS["C24"] = [
+    "assume: align = 2^k with k <= 16; sizes <= 16 (model harnesses) / <= 2^20 (ledger harnesses); a non-empty block is never resized to 0",
+    "stub (ledger harnesses only): std::alloc::{alloc, realloc, dealloc} are recording shims (c24.rs rec_alloc/rec_realloc/rec_dealloc) that serve "
+    "blocks from alloc_zeroed; the model harnesses stub nothing",
+    "GlobalAlloc contract: a block obtained for Layout(size, align) is aligned to `align` (alignment of addresses is delegated to it)",
+    "the generated `cabi_dealloc` item is the text between the quotes of RuntimeItem::CabiDealloc in crates/rust/src/lib.rs, extracted at run time",
+    "CBMC --memory-leak-check on the *_model harnesses",
+]
 
 TRUSTED = [
     "Kani 0.68 / CBMC 6.11 (CaDiCaL): Rust MIR -> goto translation, CBMC's memory model (object/offset pointers, malloc/free, dangling and double-free checks)",
@@ -155,6 +202,21 @@ _slot_guard = threading.Lock()
 def _crate_dir() -> str:
     key = hashlib.md5(os.path.abspath(vlib.REPO).encode()).hexdigest()[:8]
     return os.path.join(WORK, "crate_" + key)
+
+
+GEN_NOTES = {}
+
+
+def extract_cabi_dealloc():
+    """Text of the `cabi_dealloc` runtime item the Rust backend emits."""
+    try:
+        src = open(os.path.join(vlib.REPO, "crates/rust/src/lib.rs"), encoding="utf-8").read()
+    except OSError:
+        return None
+    m = re.search(r'RuntimeItem::CabiDealloc\s*=>\s*\{.*?push_str\(\s*"\\\n(.*?)\n\s*",', src, re.S)
+    if not m or "fn cabi_dealloc" not in m.group(1) or "\\" in m.group(1):
+        return None
+    return m.group(1)
 
 
 def prepare_crate() -> str:
@@ -181,6 +243,14 @@ def prepare_crate() -> str:
     for n in os.listdir(src):
         if n not in names:
             os.unlink(os.path.join(src, n))
+    gen = extract_cabi_dealloc()
+    GEN_NOTES["cabi_dealloc"] = gen is not None
+    if gen is not None:
+        text = "// extracted by engines/rtkani.py from %s/crates/rust/src/lib.rs (RuntimeItem::CabiDealloc)\n%s\n" % (vlib.REPO, gen)
+        b = os.path.join(src, "gen_cabi_dealloc.rs")
+        if open(b).read() != text:
+            with open(b, "w") as f:
+                f.write(text)
     shutil.copy(os.path.join(vlib.REPO, "Cargo.lock"), os.path.join(d, "Cargo.lock"))
     # settle Cargo.lock once (adds the `rtkani` package) so that parallel cargo runs do not race on it
     vlib.run_cmd(["cargo", "metadata", "--format-version", "1", "--offline"], cwd=d, timeout=120,
@@ -345,8 +415,12 @@ def run(prop_id: str, tier: str, seed: int) -> vlib.Outcome:
     out.checker_cmd = ("cd %s && RUSTFLAGS='%s' cargo kani -Z stubbing --harness <module>::<name> --exact --target-dir %s/slot<k> "
                        "--no-assertion-reach-checks [-Z unstable-options --cbmc-args --memory-leak-check]"
                        % (crate, env["RUSTFLAGS"], WORK))
-    hs_sorted = sorted(hs, key=lambda h: -h["est"])
     results = {}
+    for h in hs:
+        if h.get("needs") and not GEN_NOTES.get(h["needs"]):
+            results[h["name"]] = {"status": "inconclusive", "reason": "could not extract the generated `%s` item from the repository" % h["needs"],
+                                  "checks": 0, "covers": (0, 0), "wall_s": 0, "cpu_s": None, "harness": h["name"]}
+    hs_sorted = sorted([h for h in hs if h["name"] not in results], key=lambda h: -h["est"])
     with concurrent.futures.ThreadPoolExecutor(max_workers=min(MAX_PARALLEL, max(1, len(hs)))) as ex:
         futs = {ex.submit(run_harness, prop_id, h, crate, timeout, env): h for h in hs_sorted}
         for fu in concurrent.futures.as_completed(futs):
